@@ -88,6 +88,10 @@ Inv_Complete ==
 Inv_SameRel ==
     (I.mode = "assert" /\ Pos = 0 /\ WinI) => ((I.accepted <=> RelI) \/ KnownSameRel(Active, I, P))
 
+\* the same for end-to-end sequences (the assertion is the LAST call of a program): judged unless an earlier call of the program
+\* was itself refused with checks on (then the run never reaches the assertion)
+Inv_SameRelSeq == ~I.skip_samerel => Inv_SameRel
+
 ---------------------------------------------------------------------------
 (* Free-operand variant: the operand wires are adversarial too, so one     *)
 (* captured instance covers EVERY operand value of the field.  The         *)
